@@ -28,6 +28,7 @@ type Bind struct {
 	InClass    bool   // declared in the task template instead of the role
 	ClassToo   bool   // also declared in the task template with another transport (role level must win)
 	AtGroup    bool   // declared on the enclosing aggregator instead of the task role (inherited by the task)
+	Explicit   string // an explicit tcp:// or ipc:// target on the inbound channel: to be passed through unchanged (nobody connects to it by name)
 }
 
 type Connect struct {
@@ -67,6 +68,9 @@ func bindYAML(b Bind, transport, indent string) string {
 	s := fmt.Sprintf("%s- name: %s\n%s  type: push\n%s  transport: %s\n%s  addressing: %s\n", indent, b.Name, indent, indent, transport, indent, b.Addressing)
 	if b.Global != "" {
 		s += fmt.Sprintf("%s  global: %s\n", indent, b.Global)
+	}
+	if b.Explicit != "" {
+		s += fmt.Sprintf("%s  target: \"%s\"\n", indent, b.Explicit)
 	}
 	return s
 }
@@ -266,6 +270,12 @@ func run(c Case) (res vh.Result) {
 			if tr != b.Transport {
 				return fail("inbound-transport", "task t%d inbound channel %s: transport %q, declared %q (role level must win over the task template)", i, b.Name, tr, b.Transport)
 			}
+			if b.Explicit != "" {
+				if addr != b.Explicit {
+					return fail("explicit-target-changed", "task t%d inbound channel %s: explicit target %q was passed on as %q", i, b.Name, b.Explicit, addr)
+				}
+				continue
+			}
 			if b.Addressing == "ipc" {
 				if !strings.HasPrefix(addr, "ipc://") {
 					return fail("inbound-address", "task t%d inbound ipc channel %s was told to bind %q", i, b.Name, addr)
@@ -343,6 +353,9 @@ func gen(t *rapid.T) Case {
 			if !b.InClass && !b.ClassToo && rapid.IntRange(0, 3).Draw(t, "bindAtGroup") == 0 {
 				b.AtGroup = true
 			}
+			if !b.InClass && !b.ClassToo && b.Global == "" && rapid.IntRange(0, 5).Draw(t, "explicitBind") == 0 {
+				b.Explicit = rapid.SampledFrom([]string{"tcp://*:31999", "ipc://@fixed-pipe", "tcp://*:47000"}).Draw(t, "explicitTarget")
+			}
 			ts.Binds = append(ts.Binds, b)
 		}
 		c.Tasks = append(c.Tasks, ts)
@@ -351,7 +364,9 @@ func gen(t *rapid.T) Case {
 	var bound [][2]int
 	for i, ts := range c.Tasks {
 		for j := range ts.Binds {
-			bound = append(bound, [2]int{i, j})
+			if ts.Binds[j].Explicit == "" {
+				bound = append(bound, [2]int{i, j})
+			}
 		}
 	}
 	for i := range c.Tasks {
@@ -423,6 +438,9 @@ func TestFixed(t *testing.T) {
 	vh.Fixed(t, prop, "inbound-channel-declared-on-the-aggregator", Case{Tasks: []TaskSpec{
 		{Host: 0, Mode: "fairmq", Binds: []Bind{{Name: "data", Transport: "zeromq", Addressing: "tcp", AtGroup: true}, {Name: "own", Transport: "shmem", Addressing: "tcp"}}},
 		{Host: 1, Mode: "direct", Connects: []Connect{{Name: "in", Kind: "role", ToTask: 0, ToChan: 0, Transport: "default"}, {Name: "in2", Kind: "role", ToTask: 0, ToChan: 1, Transport: "default"}}}}}, vh.Confirmed(run))
+	vh.Fixed(t, prop, "inbound-channel-with-explicit-target", Case{Tasks: []TaskSpec{
+		{Host: 0, Mode: "fairmq", Binds: []Bind{{Name: "fixed", Transport: "zeromq", Addressing: "tcp", Explicit: "tcp://*:31999"}, {Name: "data", Transport: "zeromq", Addressing: "tcp"}}},
+		{Host: 1, Mode: "direct", Connects: []Connect{{Name: "in", Kind: "role", ToTask: 0, ToChan: 1, Transport: "default"}}}}}, vh.Confirmed(run))
 	vh.Fixed(t, prop, "role-level-wins", Case{Tasks: []TaskSpec{
 		{Host: 0, Mode: "fairmq", Binds: []Bind{{Name: "data", Transport: "shmem", Addressing: "tcp", ClassToo: true}}},
 		{Host: 1, Mode: "fairmq", Connects: []Connect{{Name: "in", Kind: "role", ToTask: 0, ToChan: 0, Transport: "default"}}}}}, vh.Confirmed(run))
